@@ -27,6 +27,9 @@ def run(ctx):
     ctx.each(r10e, ctx, repo)
     ctx.each(flowalg.process_prologue, ctx, repo, "R10f")
     ctx.each(r10g, ctx, repo)
+    from . import c03 as _c03
+
+    ctx.each(_c03.r03d, ctx, repo)  # the first index of a run is evaluated twice: an evaluation that writes into the model's stored arrays makes a restart (where Y is the first index) differ from the original run (where Y is interior)
 
 
 def _r07b_as(ctx, repo):
